@@ -13,7 +13,15 @@ PROP = {
                   "of that name -> set_attributes = the C06 codecs; algorithm name, salt, spin count, hash come back, no legacy attribute is among "
                   "the attributes read; the element may stand anywhere among the root's children). The model is "
                   "tied to the code on every run through the real public setters, a real save and reload, and a cfg(umya_verif) hook "
-                  "for the private hash function; the harness oracle recomputes every hash with the sha2 crate from the standard.",
+                  "for the private hash function; the harness oracle recomputes every hash with the sha2 crate from the standard. "
+                  "The composition of C15_roundtrip_xml_* is re-run on the saved parts: every `stored` line carries the characters of the real "
+                  "xl/worksheets/sheet1.xml (kind sheet) or xl/workbook.xml (kinds workbook, revisions) written after the real setter; the driver applies "
+                  "Spec.Xml.parse (the XML 1.0 reader of the theorems) to them, takes root.kid? \"sheetProtection\" / \"workbookProtection\", runs "
+                  "AnnotProt.SheetProtection.read / WorkbookProtection.read (set_attributes) and the compared reply states (read) the hash fields read = "
+                  "the real getters after the setter = the model's setter on the same salt (for the workbook element the whole record read = the model's "
+                  "record), (tree) the element found = .elem name (render x.fields) [] for the model's record x, (chars) renderNode (.empty name (render "
+                  "x.fields)) - the theorem's writer call with attribute escaping - occurs in the real characters of the part, (flags) the options present "
+                  "(counters xmlpart.sheet-part-sent / xmlpart.workbook-part-sent).",
     "level_note": "SHA-512 and base64 are NOT proved: theorems quantify over an abstract Prims value with explicit hypotheses "
                   "(unb64 (b64 x) = some x; base64 text needs no XML escaping; digest-distinctness for 'another password fails'). "
                   "The executable Lean SHA-512/base64 used by the driver are validated by FIPS 180-4 / RFC 4648 vectors and by agreeing "
@@ -47,9 +55,9 @@ PROP = {
         "salt freshness (getrandom) is not a functional property: explored by the harness (two calls differ), not proved",
         "textual absence of the clear password from every part of the saved zip: harness scan only (passwords of >= 8 bytes); the theorem "
         "C15_no_clear states absence of the legacy field/attribute and non-interference (state depends on the password only through the digest)",
-        "C15_roundtrip_xml_*: the C15 driver does not re-run the XML-level composition on the saved parts (its `stored` lines compare the attributes a "
-        "scanner finds in the saved XML and the reloaded getters); the tie of that composition is indirect: the writer-call level by C02 (`c02 part` "
-        "render=same on the parts of its own cases; C02_writer_matches_source), the field <-> attribute tables by C06_view_tables_match_source and C06's protection cases",
+        "C15_roundtrip_xml_*: the composition is re-run on the characters of the ONE part that holds the element (sheet1.xml / workbook.xml of a new_file() "
+        "workbook with two / one boolean options switched on); the boolean options compared are the ones read from that part (outside the C15 model; their "
+        "presence is stated by the harness: sheet=1,objects=1 / lockStructure=1); the rest of the part (Around) is only parsed, its writer calls are tied by C02",
         "replay of a lone `stored` line assembles the object from the hook's hash with the public field setters (the public password setter cannot be given a salt)",
     ],
     "technique": "Lean 4 proof over a hand model (abstract SHA-512/base64) + differential check through public setters, save/reload and a hook",
